@@ -4,6 +4,7 @@ package interp
 
 import (
 	"fmt"
+	"go/token"
 	"go/types"
 	"path/filepath"
 	"strings"
@@ -28,23 +29,46 @@ type sharedInfo struct {
 	initPkgs    map[*ssa.Package]bool // packages whose init the harness asked to run
 	stubs       map[string]*ssa.Function
 	prog        *ssa.Program
+	constInit   map[*ssa.Global]*ssa.Const
 }
 
 func newSharedInfo(cfg *Config) *sharedInfo {
-	sh := &sharedInfo{initialised: map[*ssa.Global]bool{}, stubs: cfg.Stubs, prog: cfg.Prog, initPkgs: map[*ssa.Package]bool{}}
+	sh := &sharedInfo{constInit: map[*ssa.Global]*ssa.Const{}, initialised: map[*ssa.Global]bool{}, stubs: cfg.Stubs, prog: cfg.Prog, initPkgs: map[*ssa.Package]bool{}}
 	for _, pkg := range cfg.Prog.AllPackages() {
 		init := pkg.Func("init")
 		if init == nil {
 			continue
 		}
 		var rands []*ssa.Value
+		refs := map[*ssa.Global]int{}
+		consts := map[*ssa.Global]*ssa.Const{}
 		for _, b := range init.Blocks {
 			for _, ins := range b.Instrs {
 				rands = ins.Operands(rands[:0])
 				for _, r := range rands {
 					if g, ok := (*r).(*ssa.Global); ok && g.Pkg == pkg && !strings.HasPrefix(g.Name(), "init$") {
+						if u, ok := ins.(*ssa.UnOp); ok && u.Op == token.MUL {
+							continue // a plain read of the variable
+						}
 						sh.initialised[g] = true
+						refs[g]++
 					}
+				}
+				if st, ok := ins.(*ssa.Store); ok {
+					if g, ok := st.Addr.(*ssa.Global); ok {
+						if c, ok := st.Val.(*ssa.Const); ok {
+							consts[g] = c
+						}
+					}
+				}
+			}
+		}
+		// a global whose only mention in init is "g = <constant>" is materialised with that constant
+		for g, c := range consts {
+			if refs[g] == 1 {
+				if _, isBasic := c.Type().Underlying().(*types.Basic); isBasic || c.Value == nil {
+					sh.constInit[g] = c
+					delete(sh.initialised, g)
 				}
 			}
 		}
